@@ -102,6 +102,103 @@ func skewUniverse(n int) *qt.Universe {
 	return qt.NewUniverse(skewBound, pts[:n], mc[:n])
 }
 
+// bigUniverse: the 5x5 lattice of the bound [0,4]^2 (corners, midlines, quarter lines), a chain of points closing in
+// on the centre along the diagonal (2+2^-k: one more level of the tree each), and a second pointer at (1,1).
+func bigUniverse() *qt.Universe {
+	var pts []orb.Point
+	for x := 0; x <= 4; x++ {
+		for y := 0; y <= 4; y++ {
+			pts = append(pts, orb.Point{float64(x), float64(y)})
+		}
+	}
+	for k := 1; k <= 8; k++ {
+		pts = append(pts, orb.Point{2 + math.Ldexp(1, -k), 2 + math.Ldexp(1, -k)})
+	}
+	pts = append(pts, orb.Point{1, 1}, orb.Point{2.5, 2.5})
+	mc := make([]int, len(pts))
+	for i := range mc {
+		mc[i] = 1
+	}
+	return qt.NewUniverse(orb.Bound{Min: orb.Point{0, 0}, Max: orb.Point{4, 4}}, pts, mc)
+}
+
+// bigHistory: add every pointer in one of three orders, then remove every pointer in one of three orders,
+// alternating removal by identity and by point.
+func bigHistory(n, addOrder, remOrder int) []qt.Op {
+	order := func(o int) []int {
+		out := make([]int, n)
+		for i := range out {
+			switch o {
+			case 0:
+				out[i] = i
+			case 1:
+				out[i] = n - 1 - i
+			default:
+				out[i] = (i*11 + 3) % n // 11 is coprime to the 35 pointers
+			}
+		}
+		return out
+	}
+	var h []qt.Op
+	for _, i := range order(addOrder) {
+		h = append(h, qt.Op{Kind: 0, P: i})
+	}
+	for k, i := range order(remOrder) {
+		h = append(h, qt.Op{Kind: 1 + k%2, P: i})
+	}
+	return h
+}
+
+func bigTrees(r *ev.Run, p *ev.Part) {
+	var steps, queries int64
+	for ao := 0; ao < 3; ao++ {
+		for ro := 0; ro < 3; ro++ {
+			u := bigUniverse()
+			hist := bigHistory(len(u.Ps), ao, ro)
+			q := quadtree.New(u.Bound)
+			for i, op := range hist {
+				h := hist[:i+1]
+				after, ok := step(u, q, op, func(c, d string) { p.Fail(c, d+" | history: "+histString(h), replayCase{h}) })
+				steps++
+				if !ok {
+					break
+				}
+				fails, nq := observe(u, q, after, nil)
+				queries += nq
+				for _, f := range fails {
+					p.Fail(f[0], f[1]+" | history: "+histString(h), replayCase{h})
+				}
+				if len(fails) > 0 {
+					break
+				}
+			}
+		}
+	}
+	p.Execs, p.NonTrivial, p.Exhaustive = steps, steps, true
+	r.Transitions += steps
+	r.Count("queries_checked", queries)
+}
+
+func replayBig(r *ev.Run, p *ev.Part) {
+	var rc replayCase
+	if err := json.Unmarshal(p.ReplayCustom, &rc); err != nil {
+		r.HarnessError("bad replay: %v", err)
+		return
+	}
+	u := bigUniverse()
+	q := quadtree.New(u.Bound)
+	for i, op := range rc.History {
+		after, ok := step(u, q, op, func(c, d string) { p.Fail(c, fmt.Sprintf("step %d: %s", i, d), nil) })
+		if !ok {
+			return
+		}
+		fails, _ := observe(u, q, after, nil)
+		for _, f := range fails {
+			p.Fail(f[0], fmt.Sprintf("after step %d: %s", i, f[1]), nil)
+		}
+	}
+}
+
 func universe(n int) *qt.Universe {
 	if skew {
 		return skewUniverse(n)
@@ -672,10 +769,13 @@ func main() {
 		r.Custom("bfs-closure-7p", "", func(p *ev.Part) { replay(r, p, 7) })
 		r.Custom("bfs-skew-5p", "", func(p *ev.Part) { setSkew(); replay(r, p, 5) })
 		r.Custom("bfs-skew-6p", "", func(p *ev.Part) { setSkew(); replay(r, p, 6) })
+		r.Custom("big-trees", "", func(p *ev.Part) { replayBig(r, p) })
 		r.Finish()
 	}
 	r.Custom(part, fmt.Sprintf("%d pointers, all three mutations, search to closure (fixpoint)", n), func(p *ev.Part) { bfs(r, p, n, -1) })
 	r.Sample(map[string]interface{}{"deepest_history": r.Extra["deepest_history_sample"]})
+	// size: trees far larger and deeper than the closures above, along 9 fixed histories
+	r.Custom("big-trees", "35 pointers (the 5x5 lattice of the bound, 8 points closing in on the centre along the diagonal - one tree level each -, a second pointer at (1,1), (2.5,2.5)) added in 3 orders and then removed in 3 orders (by identity and by point in turn): after every one of the 9 x 70 steps the structural invariants and every query of the query menu against the brute-force reference", func(p *ev.Part) { bigTrees(r, p) })
 	ns := ev.Pick(r, 5, 6)
 	r.Custom(fmt.Sprintf("bfs-skew-%dp", ns), fmt.Sprintf("non-dyadic tree bound [0.2,2.2]x[0.1,0.7]: %d pointers on the root midlines (by either formula, and one ulp off), corners and a second-level midline; boxes with edges through exactly those values; search to closure", ns), func(p *ev.Part) {
 		setSkew()
